@@ -50,18 +50,38 @@ type worker struct {
 	served int
 }
 
+// capBuf keeps what a worker writes to stderr after its ready line (package init of pkg/util
+// logs every shipped Lua script first), capped.
 type capBuf struct {
-	mu  sync.Mutex
-	buf bytes.Buffer
+	mu    sync.Mutex
+	buf   bytes.Buffer
+	ready bool
+	pre   []byte
 }
+
+const readyLine = "C16-WORKER-READY\n"
 
 func (c *capBuf) Write(p []byte) (int, error) {
 	c.mu.Lock()
 	defer c.mu.Unlock()
+	n := len(p)
+	if !c.ready {
+		c.pre = append(c.pre, p...)
+		i := bytes.Index(c.pre, []byte(readyLine))
+		if i < 0 {
+			if len(c.pre) > 64 {
+				c.pre = c.pre[len(c.pre)-32:]
+			}
+			return n, nil
+		}
+		c.ready = true
+		p = c.pre[i+len(readyLine):]
+		c.pre = nil
+	}
 	if c.buf.Len() < 256<<10 {
 		c.buf.Write(p)
 	}
-	return len(p), nil
+	return n, nil
 }
 
 func (c *capBuf) String() string {
@@ -129,7 +149,7 @@ func (p *workerPool) spawn() (*worker, error) {
 	}
 	w := &worker{resp: make(chan []byte, 1), exited: make(chan struct{}), stderr: &capBuf{}}
 	cmd := exec.Command(p.exe)
-	cmd.Env = append(os.Environ(), "VERIF_C16_WORKER=1", "VERIF_C16_WORKER_DIR="+p.sentinel, "GOMAXPROCS=2", "GOTRACEBACK=all")
+	cmd.Env = append(os.Environ(), "VERIF_C16_WORKER=1", "VERIF_C16_WORKER_DIR="+p.sentinel, "GOMAXPROCS=2", "GOTRACEBACK=crash")
 	cmd.ExtraFiles = []*os.File{reqR, respW}
 	cmd.Stdin, cmd.Stdout, cmd.Stderr = nil, nil, w.stderr
 	if err := cmd.Start(); err != nil {
@@ -350,6 +370,8 @@ func stuckWhere(dump string) string {
 	switch {
 	case strings.Contains(dump, "gopher-lua/pm."):
 		return "pattern-match"
+	case strings.Contains(dump, "LTable).RawSet") && (strings.Contains(dump, "runtime.growslice") || strings.Contains(dump, "runtime.mallocgc") || strings.Contains(dump, "runtime.mem")):
+		return "array-fill" // t[n] = v fills the array part with nil up to n < 67108864: memory bomb
 	case strings.Contains(dump, ").stackTrace(") || strings.Contains(dump, "LState).stackTrace"):
 		return "traceback"
 	}
